@@ -463,11 +463,15 @@ impl TransferControl {
             if now >= deadline {
                 return ReconnectOutcome::Timeout;
             }
+            #[cfg(feature = "verif-hooks")]
+            crate::verif_hooks::probe("stream.reconnect.park", 0);
             let (gg, _) = self
                 .cv
                 .wait_timeout(g, deadline - now)
                 .expect("TransferControl mutex poisoned");
             g = gg;
+            #[cfg(feature = "verif-hooks")]
+            crate::verif_hooks::probe("stream.reconnect.wake", 0);
         }
     }
 
@@ -499,11 +503,15 @@ impl TransferControl {
                 return Err(CreditError::Timeout);
             }
             let timeout = deadline - now;
+            #[cfg(feature = "verif-hooks")]
+            crate::verif_hooks::probe("stream.credit.park", 0);
             let (g, _) = self
                 .cv
                 .wait_timeout(guard, timeout)
                 .expect("TransferControl mutex poisoned");
             guard = g;
+            #[cfg(feature = "verif-hooks")]
+            crate::verif_hooks::probe("stream.credit.wake", 0);
         }
     }
 
@@ -582,6 +590,13 @@ impl TransferControl {
         let now = Instant::now();
         guard.last_chunk_at = now;
         guard.last_ack_at = now;
+        self.cv.notify_all();
+    }
+
+    /// Wake every thread parked on this control's condition variable without
+    /// changing any state (a spurious wake-up on demand).
+    #[cfg(feature = "verif-hooks")]
+    pub fn verif_notify_all(&self) {
         self.cv.notify_all();
     }
 
